@@ -84,7 +84,12 @@ class CachingLoaderMixin(ABC, _CachingLoaderProtocol):
             self.cache[cache_key] = template
             return template
 
-        if self.auto_reload and not cached_template.is_up_to_date():
+        # A template parsed by another environment (a loader shared by several
+        # environments) is bound to that environment's tags, filters and
+        # options, not to this one's.
+        if cached_template.env is not env or (
+            self.auto_reload and not cached_template.is_up_to_date()
+        ):
             template = load_func()
             self.cache[cache_key] = template
             return template
@@ -122,7 +127,12 @@ class CachingLoaderMixin(ABC, _CachingLoaderProtocol):
             self.cache[cache_key] = template
             return template
 
-        if self.auto_reload and not await cached_template.is_up_to_date_async():
+        # A template parsed by another environment (a loader shared by several
+        # environments) is bound to that environment's tags, filters and
+        # options, not to this one's.
+        if cached_template.env is not env or (
+            self.auto_reload and not await cached_template.is_up_to_date_async()
+        ):
             template = await load_func()
             self.cache[cache_key] = template
             return template
